@@ -23,6 +23,7 @@ type overlapCase struct {
 	A, B       Op
 	GateKind   int
 	GateN      int
+	AnyGoid    bool   // A only triggers the work (a context cancellation): whichever goroutine of godi's does it is the one to park
 	Point      string // internal schedule point A was parked at (GateInternal)
 	WantPoint  string // GateInternal: only this point counts (empty = any)
 	Parked     bool
@@ -102,6 +103,21 @@ func genOverlap(rt *rapid.T, oo overlapOpts) *overlapCase {
 				x.exec(Op{Kind: "create", Scope: 2, Ctx: rapid.SampledFrom(kinds).Draw(rt, "gctx")})
 				for k := rapid.IntRange(1, 3).Draw(rt, "gwarm"); k > 0; k-- {
 					x.exec(Op{Kind: "get", Scope: 3 + g, Ident: rapid.SampledFrom(ids).Draw(rt, "gid")})
+				}
+			}
+			if rec := x.R.Scopes[1]; rec != nil && rec.Created && rec.Cancel != nil && rapid.IntRange(0, 2).Draw(rt, "fcancel") == 0 {
+				for _, k := range oo.AKinds {
+					if k == "cancel-watched" {
+						// the context P was created with is cancelled: P's watcher closes the family and is
+						// held inside an instance's Close(); then somebody calls Close on P (or on C) as well
+						c.A = Op{Kind: "cancel", Scope: 1}
+						c.AnyGoid = true
+						c.GateKind = kit.GateCloseEnter
+						c.GateN = rapid.SampledFrom([]int{1, 1, 2}).Draw(rt, "fcgaten")
+						c.B = Op{Kind: "close", Scope: rapid.SampledFrom([]int{1, 1, 2}).Draw(rt, "fcb")}
+						c.run()
+						return c
+					}
 				}
 			}
 			if rec := x.R.Scopes[2]; rec != nil && rec.Created {
@@ -194,7 +210,7 @@ func genOverlap(rt *rapid.T, oo overlapOpts) *overlapCase {
 		}
 	}
 	akind := rapid.SampledFrom(oo.AKinds).Draw(rt, "akind")
-	if akind == "create" && !hasVoid {
+	if (akind == "create" && !hasVoid) || akind == "cancel-watched" { // (the latter exists in the family mode above only)
 		akind = oo.AKinds[0]
 	}
 	switch akind {
@@ -356,10 +372,14 @@ func opObsKind(o Op) string {
 
 func (c *overlapCase) run() {
 	x := c.X
-	var aGoid atomic.Int64
+	var aGoid, bGoid atomic.Int64
 	count := 0
 	pk := kit.NewParker(func(gp kit.GatePoint) bool {
-		if gp.Goid != aGoid.Load() || gp.Kind != c.GateKind || (c.WantPoint != "" && !strings.HasPrefix(gp.Point, c.WantPoint)) {
+		if c.AnyGoid {
+			if gp.Goid == bGoid.Load() || gp.Kind != c.GateKind {
+				return false
+			}
+		} else if gp.Goid != aGoid.Load() || gp.Kind != c.GateKind || (c.WantPoint != "" && !strings.HasPrefix(gp.Point, c.WantPoint)) {
 			return false
 		}
 		count++ // only thread A gets here, no lock needed
@@ -377,9 +397,18 @@ func (c *overlapCase) run() {
 	case <-pk.Parked():
 		c.Parked = true
 	case <-aDone:
+		if c.AnyGoid {
+			// A has only pulled the trigger; give the goroutine that reacts to it time to reach the gate
+			select {
+			case <-pk.Parked():
+				c.Parked = true
+			case <-time.After(30 * time.Millisecond):
+			}
+		}
 	}
 	go func() {
 		defer close(bDone)
+		bGoid.Store(kit.Goid())
 		x.exec(c.B)
 	}()
 	if !kit.WaitOrTimeout(bDone, 30*time.Millisecond) {
@@ -634,7 +663,7 @@ func TestC10Schedules(t *testing.T) {
 func TestC13Schedules(t *testing.T) {
 	g13 := kit.FullOpts() // both disposable and plain services: a plain transient is the one result nothing else vets when its scope closes under it
 	g13.OptionalBias = true
-	oo := overlapOpts{Gen: g13, AKinds: []string{"get", "get", "create", "create-gatectx", "close", "close"}, BKinds: []string{"close", "close-ancestor", "pclose", "cancel"},
+	oo := overlapOpts{Gen: g13, AKinds: []string{"get", "get", "create", "create-gatectx", "close", "close", "cancel-watched"}, BKinds: []string{"close", "close-ancestor", "pclose", "cancel"},
 		GateKind: allGates, ExtraWarm: 6, ExtraScopes: 4}
 	runOverlapTest(t, "C13", "controlled-schedules",
 		"controlled two-thread programs: thread A issues Get*/CreateScope and is parked at the n-th constructor entry/exit it reaches (initializers included) or inside ctx.Done() of the context handed to CreateScope; or A closes a scope and is parked inside an instance's Close(); thread B runs one Close (A's scope, an ancestor, the provider) or a context cancellation to completion or until it blocks; if B's Close returned while A is still parked, every scope it covers is probed and must already refuse use; A is released; oracle: no panic, no hang (20 s), A returns fully constructed values or an error satisfying errors.Is(ErrScopeDisposed/ErrProviderDisposed), probes report the disposed error; non-trivial = A was parked",
@@ -1010,6 +1039,45 @@ func TestC13MultiSchedules(t *testing.T) {
 			return
 		}
 		col.Case(closerParked && c.Parked >= 2, c.Desc, c.Desc, labels...)
+		if f != nil {
+			rt.Fatalf("VIOLATION %s\n%s", f, c.Desc)
+		}
+	})
+}
+
+// TestC11MultiSchedules: resolutions that overlap the Close of their scope, seen from the
+// order rule: whatever arrives late, no dependency is closed while something that holds it
+// and has been handed over is still open.
+func TestC11MultiSchedules(t *testing.T) {
+	col := evid.New("C11", "multi-thread-schedules", "the programs of the C13 multi-thread part (2-3 resolutions in one scope and a Close of that scope, each parkable at constructor entry/exit, inside an instance's Close() or at a schedule point inside godi) over disposable-rich dependency chains; oracle: no instance is closed while an instance of the same owner that received it as a dependency - and whose creating operation had returned - is still open; no hang, no panic; non-trivial = the closing thread and a resolving thread were both parked")
+	defer col.Flush()
+	rapid.Check(t, func(rt *rapid.T) {
+		g := dispOpts()
+		g.ChainBias = true
+		g.Lifetimes = []int{kit.Singleton, kit.Scoped, kit.Scoped, kit.Transient, kit.Transient}
+		c := genMultiWith(rt, g, true)
+		if c.Desc == "" && c.Hang == "" {
+			col.Case(false, c.X.Cfg.String(), nil, "not-run")
+			return
+		}
+		var f *Failure
+		if c.Hang != "" {
+			f = fail("C11", "no-hang", "multi", "%s", c.Hang)
+		}
+		for _, o := range c.X.R.Obs {
+			if f == nil && o.Panic != nil {
+				f = fail("C11", "no-panic", "multi/"+o.Kind, "%s(s%d,%s) panicked: %v", o.Kind, o.Scope, o.Ident, o.Panic)
+			}
+		}
+		if f == nil {
+			f = c.X.checkC11Deps()
+		}
+		closerParked := len(c.Threads) > 0 && c.Threads[len(c.Threads)-1].pk != nil && c.Threads[len(c.Threads)-1].pk.WasHit()
+		if f != nil && isKnown(f) {
+			col.Excluded()
+			return
+		}
+		col.Case(closerParked && c.Parked >= 2, c.Desc, c.Desc, fmt.Sprintf("threads=%d", len(c.Threads)), fmt.Sprintf("parked=%d", c.Parked), fmt.Sprintf("closer-parked=%v", closerParked))
 		if f != nil {
 			rt.Fatalf("VIOLATION %s\n%s", f, c.Desc)
 		}
